@@ -177,7 +177,7 @@ def plan(tier, seed, avoid):
 
 
 def floors(tier):
-    f = {"evaluations": 600 if tier == "quick" else 20000, "distinct_nontrivial": 300 if tier == "quick" else 8000,
+    f = {"evaluations": 600 if tier == "quick" else 8000, "distinct_nontrivial": 300 if tier == "quick" else 3000,
          "observed.frames_with_spills": 60, "observed.removed_moves_checked": 3000, "observed.alias_pairs": 1000,
          "observed.definitions_checked": 20000, "observed.clobbers_checked": 2000, "observed.spill_loads": 500}
     for t in TARGETS:
